@@ -276,6 +276,7 @@ func init() {
 			{Name: "samlines", QShards: 2, TShards: 6, Run: c11SamLines},
 			{Name: "fields", QShards: 2, TShards: 8, Run: c11Fields},
 			{Name: "bytes", Run: c11Bytes},
+			{Name: "parallel", Race: true, QShards: 2, TShards: 6, Run: codecParallel("fasta", "fastq", "sam", "samh", "bed", "newick")},
 			{Name: "fuzz", Thorough: true, Run: c11Fuzz},
 		},
 	})
